@@ -160,26 +160,86 @@ func checkC08(w *World, r *Report) {
 	// ---------- C08.schedule ----------
 	// (1) restart flag
 	restartP := paramOfType(send, "bool", 0)
+	var sentBase ssa.Value
+	for _, fs := range FieldStores(send) {
+		if fs.Field == "Sent" {
+			sentBase = fs.FA.X
+		}
+	}
+	for _, flag := range []bool{true, false} {
+		flag := flag
+		live := ReachUnder(send, func(base ssa.Value) (bool, bool) {
+			if base == ssa.Value(restartP) {
+				return flag, true
+			}
+			return false, false
+		})
+		ncalls := 0
+		for _, s := range nvaCalls {
+			if !live.LiveInstr(s.Instr) {
+				continue
+			}
+			ncalls++
+			a := s.Common().Args
+			les, ves := live.LiveValues(a[idxOf(nva, lockEndP)]), live.LiveValues(a[idxOf(nva, vestEndP)])
+			if flag {
+				ok := len(les) > 0 && len(ves) > 0
+				var ol, ov *Origin
+				for _, le := range les {
+					ol = tr.Origins(le)
+					ok = ok && ol.HasCall("types.Context.BlockTime") && ol.HasPath("VestingType.LockupPeriod") && !ol.HasPath("VestingType.VestingPeriod") && !ol.HasPath("VestingPool.LockEnd") &&
+						ol.HasOp("time.Time.Add") && !ol.HasOp("time.Time.Sub")
+				}
+				for _, ve := range ves {
+					ov = tr.Origins(ve)
+					ok = ok && ov.HasCall("types.Context.BlockTime") && ov.HasPath("VestingType.LockupPeriod") && ov.HasPath("VestingType.VestingPeriod") && !ov.HasPath("VestingPool.LockEnd") &&
+						ov.HasOp("time.Time.Add") && !ov.HasOp("time.Time.Sub")
+				}
+				why := ""
+				if ol != nil && ov != nil {
+					why = "start <- " + ol.String() + "; end <- " + ov.String()
+				}
+				r.Check(ok, "C08.schedule", "restart: start <- now+LockupPeriod, end <- now+LockupPeriod+VestingPeriod", w.Pos(s.Instr.Pos()), "origins: start {BlockTime, LockupPeriod}, end {BlockTime, LockupPeriod, VestingPeriod}", "restart schedule has other origins: "+why)
+				// the sums are formed on time.Time (Time.Add), never on raw durations, which wrap around silently
+				okOv := true
+				for _, o := range []*Origin{ol, ov} {
+					if o == nil {
+						continue
+					}
+					for v := range o.Values {
+						if b, isB := v.(*ssa.BinOp); isB && strings.HasSuffix(typeString(b.Type()), "time.Duration") {
+							_, cx := b.X.(*ssa.Const)
+							_, cy := b.Y.(*ssa.Const)
+							if !cx && !cy {
+								okOv = false
+							}
+						}
+					}
+				}
+				r.Check(okOv, "C08.schedule", "restart: periods are added to the block time one by one", w.Pos(s.Instr.Pos()), "no arithmetic on two stored durations (int64 nanoseconds wrap silently)", "two stored durations are combined with integer arithmetic before being added to the block time: a long lockup plus a long vesting period wraps to a negative duration and the account ends before it starts")
+				// the vesting type is the pool's
+				okVT := false
+				if ol != nil {
+					for _, c := range ol.CallsNamed("Keeper.GetVestingType") {
+						a := c.Common().Args
+						if loadOfField(a[len(a)-1], "VestingType", func(b ssa.Value) bool { return b == sentBase }) {
+							okVT = true
+						}
+					}
+				}
+				r.Check(okVT, "C08.schedule", "restart: periods come from the vesting type of the debited pool", w.Pos(s.Instr.Pos()), "GetVestingType(pool.VestingType) of the pool whose Sent grows", "the periods are not read from the vesting type of the pool the coins come from")
+			} else {
+				ok := len(les) > 0 && len(ves) > 0
+				for _, v := range append(append([]ssa.Value{}, les...), ves...) {
+					ok = ok && loadOfField(v, "LockEnd", func(b ssa.Value) bool { return sentBase == nil || b == sentBase })
+				}
+				r.Check(ok, "C08.schedule", "no restart: start and end are the pool's LockEnd", w.Pos(s.Instr.Pos()), "both arguments load LockEnd of the debited pool", "without restart the schedule is not (LockEnd, LockEnd) of the debited pool")
+			}
+		}
+		r.Check(ncalls == 1, "C08.schedule", fmt.Sprintf("exactly one account creation when restart=%v", flag), w.Pos(send.Pos()), "one live newVestingAccount call", fmt.Sprintf("%d account creation calls are live when restart=%v", ncalls, flag))
+	}
 	for _, s := range nvaCalls {
 		a := s.Common().Args
-		le, ve := a[idxOf(nva, lockEndP)], a[idxOf(nva, vestEndP)]
-		onTrue := MustPass(send, boolValueEdges(send, restartP, true), s.Instr.Block())
-		onFalse := MustPass(send, boolValueEdges(send, restartP, false), s.Instr.Block())
-		ol, ov := tr.Origins(le), tr.Origins(ve)
-		switch {
-		case onTrue:
-			ok := ol.HasCall("types.Context.BlockTime") && ol.HasPath("VestingType.LockupPeriod") && !ol.HasPath("VestingType.VestingPeriod") && !ol.HasPath("VestingPool.LockEnd") &&
-				ov.HasCall("types.Context.BlockTime") && ov.HasPath("VestingType.LockupPeriod") && ov.HasPath("VestingType.VestingPeriod") && !ov.HasPath("VestingPool.LockEnd")
-			ok = ok && ol.HasOp("time.Time.Add") && !ol.HasOp("time.Time.Sub") && !ov.HasOp("time.Time.Sub")
-			r.Check(ok, "C08.schedule", "restart: start <- now+LockupPeriod, end <- now+LockupPeriod+VestingPeriod", w.Pos(s.Instr.Pos()), "origins: start {BlockTime, LockupPeriod}, end {BlockTime, LockupPeriod, VestingPeriod}", "restart schedule has other origins: start <- "+ol.String()+"; end <- "+ov.String())
-			// the vesting type is the pool's
-			r.Check(ol.HasCall("GetVestingType") || ol.HasPath("VestingTypes"), "C08.schedule", "restart: periods come from the pool's vesting type", w.Pos(s.Instr.Pos()), "LockupPeriod read from the stored vesting type", "periods do not come from the stored vesting type")
-		case onFalse:
-			ok := loadOfField(le, "LockEnd", nil) && loadOfField(ve, "LockEnd", nil)
-			r.Check(ok, "C08.schedule", "no restart: start and end are the pool's LockEnd", w.Pos(s.Instr.Pos()), "both arguments load pool.LockEnd", "without restart the schedule is not (LockEnd, LockEnd)")
-		default:
-			r.Bad("C08.schedule", "account creation call under the restart flag", w.Pos(s.Instr.Pos()), "this call is not governed by the restart flag")
-		}
 		fr := a[idxOf(nva, freeP)]
 		r.Check(loadOfField(fr, "Free", nil), "C08.vested", "free fraction passed is the vesting type's Free", w.Pos(s.Instr.Pos()), "argument loads VestingType.Free", "the free fraction passed is not the vesting type's")
 	}
